@@ -37,10 +37,10 @@ ASSUMPTIONS = ['numpy composition of item.linear/item.offset is the reference me
                'maxprocs=1 (parallel locate is C16)']
 BUDGET_S = {'quick': int(os.environ.get('C11_BUDGET_QUICK', '110')), 'thorough': int(os.environ.get('C11_BUDGET_THOROUGH', '1500'))}  # env: development on a loaded machine only
 _SCALE = float(os.environ.get('C11_SCALE', '1') or 1)  # development only: run a fraction of the plan with fewer workers
-NSEQ = {'quick': int(800 * _SCALE), 'thorough': int(14000 * _SCALE)}
+NSEQ = {'quick': int(640 * _SCALE), 'thorough': int(9000 * _SCALE)}
 NCHAIN = {'quick': int(2000 * _SCALE), 'thorough': int(40000 * _SCALE)}
-NLOC = {'quick': int(300 * _SCALE), 'thorough': int(6000 * _SCALE)}
-SEQ_CHUNK, CHAIN_CHUNK, LOC_CHUNK = 15, 250, 6
+NLOC = {'quick': int(280 * _SCALE), 'thorough': int(4000 * _SCALE)}
+SEQ_CHUNK, CHAIN_CHUNK, LOC_CHUNK = 5, 125, 4
 NLOOK = 20
 ENV = {'NUTILS_NPROCS': '1'}
 
@@ -50,15 +50,10 @@ def plan(tier, seed):
     seqs = [dict(kind='seq', start=i, stop=min(NSEQ[tier], i + SEQ_CHUNK)) for i in range(0, NSEQ[tier], SEQ_CHUNK)]
     locs = [dict(kind='locate', start=i, stop=min(NLOC[tier], i + LOC_CHUNK)) for i in range(0, NLOC[tier], LOC_CHUNK)]
     chains = [dict(kind='chain', start=i, stop=min(NCHAIN[tier], i + CHAIN_CHUNK)) for i in range(0, NCHAIN[tier], CHAIN_CHUNK)]
-    # interleave so that every worker gets every kind and a deadline cuts all kinds evenly
-    out = []
-    qs = [seqs, locs, chains]
-    while any(qs):
-        for q, k in zip(qs, (4, 2, 1)):
-            for _ in range(k):
-                if q:
-                    out.append(q.pop(0))
-    return units + out
+    # spread every kind evenly over the list (key = relative position within its kind): with the runner's round-robin
+    # sharding every worker then gets its share of every kind, in mixed order, so a deadline cuts all kinds evenly
+    keyed = [((k + .5) / len(q), j, u) for j, q in enumerate((seqs, locs, chains)) for k, u in enumerate(q)]
+    return units + [u for _, _, u in sorted(keyed, key=lambda t: t[:2])]
 
 
 # ---------------------------------------------------------------- sequence cases
